@@ -4,8 +4,6 @@ import (
 	"fmt"
 	"net"
 	"os"
-	"runtime"
-	"runtime/debug"
 	"strings"
 
 	"github.com/gobwas/pool/simctl"
@@ -43,9 +41,7 @@ func runSessions(r *eng.Run, scripts []*script, stick, segMode int) ([]*sessResu
 	// sync.Pool, so that each execution starts from the same state. Together
 	// with GOMAXPROCS=1 (set by the driver for this engine) a sync.Pool then
 	// behaves as a deterministic per-process LIFO.
-	debug.SetGCPercent(-1)
-	runtime.GC()
-	runtime.GC()
+	eng.Collect()
 	res := make([]*sessResult, len(scripts))
 	conns := map[string]net.Conn{}
 	SharedDebugDialer = NewSharedDebugDialer(conns)
